@@ -162,13 +162,13 @@ def install_summary(I, prog, classes, runtime, kill_reason=None):
     I.type_drops['ActorPortSet'] = lambda I, st, v, ref: ports_drop(I, st, None, None, None)
 
 
-def explore_lifecycle(prog, classes, runtime='ActorRuntime', poll_budget=1, with_supervisor=True, sup_status=None, start_polls=3, task_polls=6, cancel_points=False, kill_reason=None):
+def explore_lifecycle(prog, classes, runtime='ActorRuntime', poll_budget=1, with_supervisor=True, sup_status=None, start_polls=3, task_polls=6, cancel_points=False, kill_reason=None, name=None):
     """returns (I, actor, results): results = list of dict(phase, state, kind, value)"""
     I = ar.new_interp(prog, poll_budget, runtime)
     I.max_paths = 400000
     install_summary(I, prog, classes, runtime, kill_reason)
     st = State()
-    a = ar.Actor(prog, I, st, with_supervisor, 2)
+    a = ar.Actor(prog, I, st, with_supervisor, 2, name=name)
     if with_supervisor and sup_status is None:
         # supervisor status symbolic: Running or already shutting down (refused link)
         ss = z3.BitVec('sup_status', 8)
